@@ -12,7 +12,7 @@ from vf.ref import hashing
 ID = "C15"
 LEVEL = "exploration"
 TECHNIQUE = "Hypothesis-generated trees x piece lengths with align requested (library keyword and CLI --align); padded stream rebuilt from info.files and hashed by the BEP 3 reference, gap arithmetic checked per entry ; automatic piece length cases; optional second act"
-RULE = ("Cases: generated tree x piece length, v1 with align=True through TorrentFile(align=True) or `create --align`. Oracle: the "
+RULE = ("Cases: generated tree x piece length, v1 with align=True through TorrentFile(align=True) or `create --align`, progress mode 0/1/2. Oracle: the "
         "non-pad entries are exactly the files on disk; every non-pad entry starts at a stream offset that is a multiple of P; each "
         "pad entry has attr p and length exactly (-end_of_preceding_file) mod P, so 0 < len < P; info.pieces = SHA-1 slicing of the "
         "listed stream with pads as zeros, hence the listed lengths account for exactly ceil(total/P) pieces; a pad after the last "
